@@ -40,6 +40,46 @@ theorem C10_rows_independent {K : Type} [Add K] [Sub K] [Mul K] [Div K] [Neg K] 
   rw [C10_batched_expected_eq_rows P s st m hbuild hreads rows hrows t ht,
       C10_batched_expected_eq_rows P s st m hbuild hreads rows' hrows' t ht', hsame]
 
+/-- a batch of one row is the unbatched evaluation of that row -/
+theorem C10_batch_of_one {K : Type} [Add K] [Sub K] [Mul K] [Div K] [Neg K] [OfNat K 0] [OfNat K 1]
+    [OfScientific K] [LT K] [LE K] [DecidableLT K] [DecidableLE K] [BEq K]
+    (P : Prim K) (s : Spec K) (st : Settings K) (m : Model K) (hbuild : buildModel P s st = .ok m) (hreads : readsBelow m m.npars = true)
+    (r : List K) (hr : r.length = m.npars) :
+    expectedActual P m (parOfRow m.npars [r] 0) = expectedActual P m (parOf r) := by
+  have := C10_batched_expected_eq_rows P s st m hbuild hreads [r] (by simpa using hr) 0 (by simp)
+  simpa using this
+
+/-- two batches that hold the same row — at whatever positions, whatever the other rows and batch sizes — give the same
+result for it (in particular duplicated rows of one batch give identical results, and splitting or concatenating batches
+changes nothing) -/
+theorem C10_same_row_same_result {K : Type} [Add K] [Sub K] [Mul K] [Div K] [Neg K] [OfNat K 0] [OfNat K 1]
+    [OfScientific K] [LT K] [LE K] [DecidableLT K] [DecidableLE K] [BEq K]
+    (P : Prim K) (s : Spec K) (st : Settings K) (m : Model K) (hbuild : buildModel P s st = .ok m) (hreads : readsBelow m m.npars = true)
+    (rows rows' : List (List K)) (hrows : ∀ r ∈ rows, r.length = m.npars) (hrows' : ∀ r ∈ rows', r.length = m.npars)
+    (t t' : Nat) (ht : t < rows.length) (ht' : t' < rows'.length) (hsame : rows.getD t [] = rows'.getD t' []) :
+    expectedActual P m (parOfRow m.npars rows t) = expectedActual P m (parOfRow m.npars rows' t') := by
+  rw [C10_batched_expected_eq_rows P s st m hbuild hreads rows hrows t ht,
+      C10_batched_expected_eq_rows P s st m hbuild hreads rows' hrows' t' ht', hsame]
+
+/-- concatenated batches: the leading rows of `A ++ B` evaluate as in `A`, the trailing ones as in `B` -/
+theorem C10_batch_append {K : Type} [Add K] [Sub K] [Mul K] [Div K] [Neg K] [OfNat K 0] [OfNat K 1]
+    [OfScientific K] [LT K] [LE K] [DecidableLT K] [DecidableLE K] [BEq K]
+    (P : Prim K) (s : Spec K) (st : Settings K) (m : Model K) (hbuild : buildModel P s st = .ok m) (hreads : readsBelow m m.npars = true)
+    (A B : List (List K)) (hA : ∀ r ∈ A, r.length = m.npars) (hB : ∀ r ∈ B, r.length = m.npars) :
+    (∀ t, t < A.length → expectedActual P m (parOfRow m.npars (A ++ B) t) = expectedActual P m (parOfRow m.npars A t)) ∧
+    (∀ t, t < B.length → expectedActual P m (parOfRow m.npars (A ++ B) (A.length + t)) = expectedActual P m (parOfRow m.npars B t)) := by
+  have hAB : ∀ r ∈ A ++ B, r.length = m.npars := by
+    intro r hr; rcases List.mem_append.mp hr with h | h
+    · exact hA r h
+    · exact hB r h
+  constructor
+  · intro t ht
+    apply C10_same_row_same_result P s st m hbuild hreads _ _ hAB hA t t (by simp; omega) ht
+    simp [List.getD_eq_getElem?_getD, List.getElem?_append_left ht]
+  · intro t ht
+    apply C10_same_row_same_result P s st m hbuild hreads _ _ hAB hB (A.length + t) t (by simp; omega) ht
+    simp [List.getD_eq_getElem?_getD, List.getElem?_append_right]
+
 /-- the batch dimension is the leading one: the batched result is a list with one entry per row -/
 theorem C10_batch_is_leading_dim {K : Type} [Add K] [Sub K] [Mul K] [Div K] [Neg K] [OfNat K 0] [OfNat K 1]
     [OfScientific K] [LT K] [LE K] [DecidableLT K] [DecidableLE K] [BEq K]
